@@ -16,3 +16,9 @@ package channeldb
 //@   site call AddFwdPkg: assert arg(2) == fwdPkg && ret(putRevocationLog) == nil
 //@   site call serializeLogUpdates nth 0: assert arg(1) == validUpdates
 //@   site call serializeLogUpdates nth 1: assert arg(1) == updates
+//@
+//@ func (p *ChannelPackager) AckAddHtlcs
+//@   props C08
+//@   loop * havoc
+//@   loop 0 step len(heightDiffs[addRef.Height]) == prevheap(len(heightDiffs[addRef.Height])) + 1
+//@   site call ackAddHtlcsAtHeight: assert arg(0) == sourceBkt && arg(1) == height && arg(2) == indexes
